@@ -840,7 +840,7 @@ func (fc *FnCtx) appendOp(st *State, instr ssa.CallInstruction, c *ssa.CallCommo
 	inplace := vc.define("inplace", SBool, mkLe(newLen, s.cp()))
 	farr := fc.newRef(st, "app_arr")
 	fcap := vc.fresh("app_cap", SInt)
-	vc.assert(mkAnd(mkLe(newLen, fcap), mkLe(fcap, maxSliceLen)))
+	vc.assert(mkImp(st.guard, mkAnd(mkLe(newLen, fcap), mkLe(fcap, maxSliceLen))))
 	res := SV{Typ: resT, T: []Term{
 		vc.define("app_a", SInt, mkIte(inplace, s.arr(), farr)),
 		vc.define("app_o", SInt, mkIte(inplace, s.off(), "0")),
@@ -1113,6 +1113,11 @@ func (fc *FnCtx) invoke(st *State, instr ssa.CallInstruction, c *ssa.CallCommon,
 	if r, ok := fc.intrinsicInvoke(st, instr, key, recv, args, resT); ok {
 		return r
 	}
-	vc.note("interface method " + key + " has no contract: result havocked, no side effects assumed")
+	vc.note("interface method " + key + " has no contract (used in " + fc.name + ")")
+	pos := "-"
+	if instr != nil {
+		pos = fc.e.pos(instr.Pos())
+	}
+	fc.vc.oblige(st, "extern", "", "call of interface method "+key+" which has no contract", pos, "false")
 	return vc.havoc(resT, "inv_"+mname, st.alloc)
 }
